@@ -6,9 +6,10 @@ verus! {
 //@item foyer-storage/src/engine/block/serde.rs :: type Sequence
 //@item foyer-storage/src/engine/block/manager.rs :: type BlockId
 
-//@item foyer-storage/src/engine/block/indexer.rs :: enum Index
-//@item foyer-storage/src/engine/block/indexer.rs :: struct EntryAddress
+//@item foyer-storage/src/engine/block/indexer.rs :: enum Index rules=derive-clone-copy
+//@item foyer-storage/src/engine/block/indexer.rs :: struct EntryAddress rules=derive-clone-copy
 //@item foyer-storage/src/engine/block/indexer.rs :: type IndexerShard
+//@item foyer-storage/src/engine/block/indexer.rs :: struct HashedEntryAddress rules=derive-clone-copy
 
 // prelude: the real struct holds `Arc<Vec<RwLock<IndexerShard>>>`; the lock wrappers are not extracted
 // (listed as unverified: shard selection and locking), only the per-shard map logic is.
@@ -45,6 +46,81 @@ impl Indexer {
             old(shard)@.contains_key(hash) && seq_of(index) < seq_of(old(shard)@[hash])
                 ==> final(shard)@[hash] == old(shard)@[hash] && r == addr_of(index), // @label older_is_dropped_returns_new
 //@end
+
+// ---- Indexer::get: the lookup under the read lock (lock acquisition replaced by the map it guards)
+//@region foyer-storage/src/engine/block/indexer.rs :: impl~^impl Indexer$/fn get name=get_lookup start=/match self\.shards\[shard\]\.read\(\)\.get/ end=/match self\.shards\[shard\]\.read\(\)\.get/ sub=@self\.shards\[shard\]\.read\(\)@shard_map@
+//@head
+    fn get_lookup(&self, shard_map: &IndexerShard, hash: u64) -> (r: Option<EntryAddress>)
+        ensures
+            shard_map@.contains_key(hash) ==> r == addr_of(shard_map@[hash]), // @label hit_returns_indexed_address_tombstone_is_miss
+            !shard_map@.contains_key(hash) ==> r.is_none(), // @label absent_is_miss
+//@end
+
+// ---- Indexer::remove: unconditional removal of an address, tombstones stay
+//@region foyer-storage/src/engine/block/indexer.rs :: impl~^impl Indexer$/fn remove name=remove_entry start=/match self\.shards\[shard\]\.write\(\)\.entry/ end=/match self\.shards\[shard\]\.write\(\)\.entry/ sub=@self\.shards\[shard\]\.write\(\)@shard_map@
+//@head
+    fn remove_entry(&self, shard_map: &mut IndexerShard, hash: u64) -> (r: Option<EntryAddress>)
+        ensures
+            forall|h: u64| h != hash ==> (old(shard_map)@.contains_key(h) <==> final(shard_map)@.contains_key(h)), // @label frame_domain
+            forall|h: u64| h != hash && old(shard_map)@.contains_key(h) ==> final(shard_map)@[h] == old(shard_map)@[h], // @label frame_values
+            old(shard_map)@.contains_key(hash) && addr_of(old(shard_map)@[hash]).is_some()
+                ==> !final(shard_map)@.contains_key(hash) && r == addr_of(old(shard_map)@[hash]), // @label address_removed_and_returned
+            old(shard_map)@.contains_key(hash) && addr_of(old(shard_map)@[hash]).is_none()
+                ==> final(shard_map)@ == old(shard_map)@ && r.is_none(), // @label tombstone_kept
+            !old(shard_map)@.contains_key(hash) ==> final(shard_map)@ == old(shard_map)@ && r.is_none(), // @label absent_noop
+//@end
+
+// ---- Indexer::remove_batch: the reclaimer's sequence-guarded removal (one (hash, sequence) pair)
+//@region foyer-storage/src/engine/block/indexer.rs :: impl~^impl Indexer$/fn remove_batch name=remove_guarded start=/match shard\.entry\(hash\)/ end=/match shard\.entry\(hash\)/ rules=let-chain
+//@head
+    fn remove_guarded(&self, shard: &mut IndexerShard, hash: u64, sequence: Sequence, olds: &mut Vec<EntryAddress>)
+        ensures
+            forall|h: u64| h != hash ==> (old(shard)@.contains_key(h) <==> final(shard)@.contains_key(h)), // @label frame_domain
+            forall|h: u64| h != hash && old(shard)@.contains_key(h) ==> final(shard)@[h] == old(shard)@[h], // @label frame_values
+            old(shard)@.contains_key(hash) && sequence >= seq_of(old(shard)@[hash]) ==> !final(shard)@.contains_key(hash), // @label not_newer_entry_removed
+            old(shard)@.contains_key(hash) && sequence < seq_of(old(shard)@[hash]) ==> final(shard)@ == old(shard)@, // @label newer_entry_survives_reclaim
+            !old(shard)@.contains_key(hash) ==> final(shard)@ == old(shard)@, // @label absent_noop
+            old(shard)@.contains_key(hash) && sequence >= seq_of(old(shard)@[hash]) && addr_of(old(shard)@[hash]).is_some()
+                ==> final(olds)@ == old(olds)@.push(addr_of(old(shard)@[hash]).unwrap()), // @label removed_address_reported
+            !(old(shard)@.contains_key(hash) && sequence >= seq_of(old(shard)@[hash]) && addr_of(old(shard)@[hash]).is_some())
+                ==> final(olds)@ == old(olds)@, // @label nothing_else_reported
+//@end
+
+// ---- Indexer::insert_tombstone: delete = insert of a tombstone through the same guard
+//@region foyer-storage/src/engine/block/indexer.rs :: impl~^impl Indexer$/fn insert_tombstone name=insert_tombstone_inner start=/self\.insert_inner\(&mut shard, hash, Index::Tombstone\(sequence\)\)/ end=/self\.insert_inner\(&mut shard, hash, Index::Tombstone\(sequence\)\)/ sub=@&mut shard,@shard,@
+//@head
+    fn insert_tombstone_inner(&self, shard: &mut IndexerShard, hash: u64, sequence: Sequence) -> (r: Option<EntryAddress>)
+        ensures
+            final(shard)@.contains_key(hash), // @label key_has_entry
+            !old(shard)@.contains_key(hash) || sequence >= seq_of(old(shard)@[hash])
+                ==> final(shard)@[hash] == Index::Tombstone(sequence), // @label tombstone_shadows_older_address
+            forall|h: u64| h != hash && old(shard)@.contains_key(h) ==> final(shard)@.contains_key(h) && final(shard)@[h] == old(shard)@[h], // @label frame
+//@end
+
+// ---- Indexer::insert_batch: one address of a flushed batch
+//@region foyer-storage/src/engine/block/indexer.rs :: impl~^impl Indexer$/fn insert_batch name=insert_batch_one start=/if let Some\(old\) = self\.insert_inner/ end=/if let Some\(old\) = self\.insert_inner/ sub=@&mut shard,@shard,@
+//@head
+    fn insert_batch_one(&self, shard: &mut IndexerShard, haddr: HashedEntryAddress, olds: &mut Vec<HashedEntryAddress>)
+        ensures
+            final(shard)@.contains_key(haddr.hash), // @label key_has_entry
+            !old(shard)@.contains_key(haddr.hash) || haddr.address.sequence >= seq_of(old(shard)@[haddr.hash])
+                ==> final(shard)@[haddr.hash] == Index::Address(haddr.address), // @label newer_address_indexed
+            old(shard)@.contains_key(haddr.hash) && haddr.address.sequence < seq_of(old(shard)@[haddr.hash])
+                ==> final(shard)@[haddr.hash] == old(shard)@[haddr.hash]
+                    && final(olds)@ == old(olds)@.push(HashedEntryAddress { hash: haddr.hash, address: haddr.address }), // @label stale_write_not_indexed_and_reported_as_garbage
+            forall|h: u64| h != haddr.hash && old(shard)@.contains_key(h) ==> final(shard)@.contains_key(h) && final(shard)@[h] == old(shard)@[h], // @label frame
+//@end
+}
+
+// ---- corollary: per hash the indexed sequence never decreases under insert / delete / guarded removal
+pub open spec fn mono(a: Map<u64, Index>, b: Map<u64, Index>, hash: u64) -> bool {
+    a.contains_key(hash) && b.contains_key(hash) ==> seq_of(b[hash]) >= seq_of(a[hash])
+}
+
+fn corollary_insert_never_lowers_sequence(ix: &Indexer, shard: &mut IndexerShard, hash: u64, index: Index, probe: u64)
+    ensures mono(old(shard)@, final(shard)@, probe), // @label indexed_sequence_monotone
+{
+    let _ = ix.insert_inner(shard, hash, index);
 }
 
 } // verus!
